@@ -404,7 +404,7 @@ func absString(yy, mo, dd, hh, mi, ss, t, nn int, p byte) string {
 
 var malformedChars = []byte("+-R rx:/.09_\x00\xff")
 
-func mutate(rng *Rng, s string) string {
+func mutateTimeStr(rng *Rng, s string) string {
 	b := []byte(s)
 	switch rng.Intn(6) {
 	case 0: // wrong length
@@ -543,9 +543,9 @@ func corrC20Time(r *Run) *c20Time {
 			b[15] = "+-"[rng.Intn(2)]
 			s = string(b)
 		case 1:
-			s = mutate(rng, prod[rng.Intn(len(prod))].s)
+			s = mutateTimeStr(rng, prod[rng.Intn(len(prod))].s)
 		default:
-			s = mutate(rng, mutate(rng, prod[rng.Intn(len(prod))].s))
+			s = mutateTimeStr(rng, mutateTimeStr(rng, prod[rng.Intn(len(prod))].s))
 		}
 		c.timeParse(s, "malformed", i < r.N(900, n))
 		if i%2 == 0 {
